@@ -30,6 +30,7 @@ import (
 func init() {
 	vRegister("c15_tv", c15TV)
 	vRegister("c15_mbt", c15MBT)
+	vRegister("c15_replay", c15Replay)
 	vRegister("c15_probe", c15Probe)
 }
 
@@ -143,14 +144,33 @@ type c15Call struct {
 	RFds, WFds int
 }
 
+// c15LogWriter sits between writeAll and the archive writer and records every Write call.  With
+// a gate installed (MBT replay of pipelined behaviours) each call waits for the replayer's
+// go-ahead and is reported back on done, so that the model's interleaving of Write calls with the
+// producer's calls is the one that happens.
 type c15LogWriter struct {
 	s     *c15Sess
 	inner io.Writer
 	calls []c15Call
 	zero  int
+	gate  chan bool // false = give up
+	done  chan c15Call
 }
 
 func (l *c15LogWriter) Write(p []byte) (int, error) {
+	if l.gate != nil {
+		if !<-l.gate {
+			return 0, fmt.Errorf("c15: replay abandoned")
+		}
+	}
+	n, err := l.write(p)
+	if l.done != nil {
+		l.done <- l.calls[len(l.calls)-1]
+	}
+	return n, err
+}
+
+func (l *c15LogWriter) write(p []byte) (int, error) {
 	n, err := l.inner.Write(p)
 	c := c15Call{Len: len(p), N: n}
 	if err != nil {
@@ -493,8 +513,109 @@ func c15PickLen(rng *rand.Rand, pos int64, marks []int64, max int, bias bool) in
 	return 1 + rng.Intn(max)
 }
 
-// c15Record runs one session to the end and records it.  Returns false when the run had to be
-// given up for a reason of the harness (error text in the second result).
+// c15Rec records the calls made on one session as events of ArchiveTrace.
+type c15Rec struct {
+	tr           *vTrace
+	s            *c15Sess
+	stats        map[string]int
+	rstate       string // run | eof | err | hang
+	werr         error
+	peakW, peakR int
+}
+
+func (r *c15Rec) fds() (int, int) {
+	rf, wf, _ := c15Fds(r.s.srcBase, r.s.dstBase)
+	if wf > r.peakW {
+		r.peakW = wf
+	}
+	if rf > r.peakR {
+		r.peakR = rf
+	}
+	return rf, wf
+}
+
+func (r *c15Rec) begin(run int, kind string, pipelined bool) {
+	s := r.s
+	r.rstate = "run"
+	r.tr.Emit(map[string]any{"e": "reset", "run": run, "kind": kind, "entries": len(s.subs), "pipelined": pipelined, "top": s.tree.Top}, nil)
+	for k, f := range s.subs {
+		nd := s.tree.Nodes[s.node[k]]
+		ev := map[string]any{"e": "entry", "dir": f.IsDir, "hdr": s.hdrLen[k], "size": int(f.Size), "parent": s.parent[k], "name": nd.Name}
+		if !nd.Dir && len(nd.Content) <= 32 {
+			ev["content"] = vInts(nd.Content)
+		}
+		r.tr.Emit(ev, nil)
+	}
+	r.tr.Emit(map[string]any{"e": "newreader", "announced": int(s.reader.getSize()), "canon": len(s.canon)}, nil)
+}
+
+func (r *c15Rec) resize(ent int, newLen int64) error {
+	if err := os.Truncate(r.s.subs[ent].AbsPath, newLen); err != nil {
+		return err
+	}
+	r.tr.Emit(map[string]any{"e": "resize", "ent": ent + 1, "len": int(newLen)}, nil)
+	r.stats["resizes"]++
+	return nil
+}
+
+func (r *c15Rec) read(n int) {
+	res := r.s.read(n)
+	rf, wf := r.fds()
+	r.tr.Emit(map[string]any{"e": "rd", "n": n, "got": res.got, "res": res.res, "cls": c15ErrClass(res.msg), "rfds": rf, "wfds": wf}, nil)
+	r.stats["rd_calls"]++
+	if res.res == "ok" {
+		return
+	}
+	r.rstate = res.res
+	switch res.res {
+	case "eof":
+		r.tr.Emit(map[string]any{"e": "eof", "total": len(r.s.produced), "badbytes": r.s.badBytes()}, nil)
+		r.stats["eof_runs"]++
+	case "err":
+		r.tr.Emit(map[string]any{"e": "abort", "total": len(r.s.produced), "badbytes": r.s.badBytes()}, nil)
+		r.stats["err_runs"]++
+	}
+}
+
+func (r *c15Rec) rclose() {
+	_ = r.s.reader.Close()
+	rf, wf := r.fds()
+	r.tr.Emit(map[string]any{"e": "rclose", "rfds": rf, "wfds": wf}, nil)
+}
+
+// write hands the next n produced bytes to writeAll and records every Write call it makes.
+func (r *c15Rec) write(n int) {
+	r.tr.Emit(map[string]any{"e": "wa", "len": n}, nil)
+	calls, err := r.s.writeSeg(n)
+	for _, c := range calls {
+		res := "ok"
+		if c.Err != "" {
+			res = "err"
+		}
+		if c.WFds > r.peakW {
+			r.peakW = c.WFds
+		}
+		r.tr.Emit(map[string]any{"e": "wr", "len": c.Len, "c": c.N, "res": res, "cls": c15ErrClass(c.Err), "rfds": c.RFds, "wfds": c.WFds}, nil)
+		r.stats["wr_calls"]++
+		if c.N < c.Len {
+			r.stats["wr_short"]++
+		}
+	}
+	r.werr = err
+}
+
+func (r *c15Rec) wclose() {
+	_ = r.s.writer.Close()
+	rf, wf := r.fds()
+	r.tr.Emit(map[string]any{"e": "wclose", "rfds": rf, "wfds": wf}, nil)
+	if r.rstate == "eof" && r.werr == nil && r.s.wpos == len(r.s.produced) {
+		d := r.s.diff(nil, nil)
+		r.tr.Emit(map[string]any{"e": "treediff", "missing": d.Missing, "extra": d.Extra, "kind": d.Kind, "size": d.Size, "sha": d.Sha, "first": d.First}, nil)
+	}
+}
+
+// c15Record runs one session to the end under the plan and records it.  An error is a failure
+// of the harness itself (never of the code under test).
 func c15Record(tr *vTrace, run int, base string, tree *c15Tree, plan c15Plan, rng *rand.Rand, stats map[string]int) error {
 	s, err := c15Open(base, tree, nil)
 	if err != nil {
@@ -502,65 +623,30 @@ func c15Record(tr *vTrace, run int, base string, tree *c15Tree, plan c15Plan, rn
 		return err
 	}
 	defer s.cleanup()
-	tr.Emit(map[string]any{"e": "reset", "run": run, "kind": plan.kind, "entries": len(s.subs), "pipelined": plan.pipelined}, nil)
-	for k, f := range s.subs {
-		tr.Emit(map[string]any{"e": "entry", "dir": f.IsDir, "hdr": s.hdrLen[k], "size": int(f.Size), "parent": s.parent[k]}, nil)
-	}
-	tr.Emit(map[string]any{"e": "newreader", "announced": int(s.reader.getSize()), "canon": len(s.canon)}, nil)
+	r := &c15Rec{tr: tr, s: s, stats: stats}
+	r.begin(run, plan.kind, plan.pipelined)
 	marks := s.marks()
 	var resizes []c15Resize
 	if plan.resizes != nil {
 		resizes = plan.resizes(s)
 	}
-	rstate := "run"
-	peakW, peakR := 0, 0
-	fds := func() (int, int) {
-		r, w, _ := c15Fds(s.srcBase, s.dstBase)
-		if w > peakW {
-			peakW = w
-		}
-		if r > peakR {
-			peakR = r
-		}
-		return r, w
-	}
-	doWrites := func(all bool) error {
-		for s.wpos < len(s.produced) {
+	doWrites := func(all bool) {
+		for s.wpos < len(s.produced) && r.werr == nil {
 			avail := len(s.produced) - s.wpos
 			n := c15PickLen(rng, int64(s.wpos), marks, plan.maxWrite, plan.bias)
 			if n > avail {
 				if !all && rng.Intn(2) == 0 {
-					return nil
+					return
 				}
 				n = avail
 			}
-			tr.Emit(map[string]any{"e": "wa", "len": n}, nil)
-			calls, err := s.writeSeg(n)
-			for _, c := range calls {
-				res := "ok"
-				if c.Err != "" {
-					res = "err"
-				}
-				if c.WFds > peakW {
-					peakW = c.WFds
-				}
-				tr.Emit(map[string]any{"e": "wr", "len": c.Len, "c": c.N, "res": res, "cls": c15ErrClass(c.Err), "rfds": c.RFds, "wfds": c.WFds}, nil)
-				stats["wr_calls"]++
-				if c.N < c.Len {
-					stats["wr_short"]++
-				}
-			}
-			if err != nil {
-				return err
-			}
+			r.write(n)
 			if !all && rng.Intn(3) == 0 {
-				return nil
+				return
 			}
 		}
-		return nil
 	}
-	var werr error
-	for rstate == "run" {
+	for r.rstate == "run" {
 		// source files changing under the producer
 		for i := 0; i < len(resizes); i++ {
 			rz := resizes[i]
@@ -568,98 +654,169 @@ func c15Record(tr *vTrace, run int, base string, tree *c15Tree, plan c15Plan, rn
 			if p < rz.at {
 				continue
 			}
-			legal := p <= s.starts[rz.ent] || (s.subs[rz.ent].Size > 0 && p < s.end(rz.ent))
-			if legal {
-				if err := os.Truncate(s.subs[rz.ent].AbsPath, rz.newLen); err != nil {
+			// the producer has not finished this file (Archive!SourceResize)
+			if p <= s.starts[rz.ent] || (s.subs[rz.ent].Size > 0 && p < s.end(rz.ent)) {
+				if err := r.resize(rz.ent, rz.newLen); err != nil {
 					return err
 				}
-				tr.Emit(map[string]any{"e": "resize", "ent": rz.ent + 1, "len": int(rz.newLen)}, nil)
-				stats["resizes"]++
 			}
 			resizes = append(resizes[:i], resizes[i+1:]...)
 			i--
 		}
-		n := c15PickLen(rng, int64(len(s.produced)), marks, plan.maxRead, plan.bias)
-		r := s.read(n)
-		rf, wf := fds()
-		tr.Emit(map[string]any{"e": "rd", "n": n, "got": r.got, "res": r.res, "cls": c15ErrClass(r.msg), "rfds": rf, "wfds": wf}, nil)
-		stats["rd_calls"]++
-		if r.res != "ok" {
-			rstate = r.res
-		}
-		if r.res == "hang" {
+		r.read(c15PickLen(rng, int64(len(s.produced)), marks, plan.maxRead, plan.bias))
+		if r.rstate == "hang" {
 			return nil // the reader goroutine is lost; the trace ends here and is rejected
 		}
-		if plan.pipelined && werr == nil && rng.Intn(2) == 0 {
-			werr = doWrites(false)
+		if plan.pipelined && rng.Intn(2) == 0 {
+			doWrites(false)
 		}
 	}
-	if rstate == "eof" {
-		tr.Emit(map[string]any{"e": "eof", "total": len(s.produced), "badbytes": s.badBytes()}, nil)
-		stats["eof_runs"]++
-	} else {
-		tr.Emit(map[string]any{"e": "abort", "total": len(s.produced), "badbytes": s.badBytes()}, nil)
-		stats["err_runs"]++
+	r.rclose()
+	doWrites(true)
+	if r.werr != nil {
+		return nil // the failing Write call is in the trace
 	}
-	_ = s.reader.Close()
-	rf, wf := fds()
-	tr.Emit(map[string]any{"e": "rclose", "rfds": rf, "wfds": wf}, nil)
-	if werr == nil {
-		werr = doWrites(true)
-	}
-	if werr == nil {
-		_, beforeClose := fds()
-		_ = s.writer.Close()
-		rf, wf = fds()
-		tr.Emit(map[string]any{"e": "wclose", "rfds": rf, "wfds": wf}, nil)
-		if rstate == "eof" {
-			d := s.diff(nil, nil)
-			tr.Emit(map[string]any{"e": "treediff", "missing": d.Missing, "extra": d.Extra, "kind": d.Kind, "size": d.Size, "sha": d.Sha, "first": d.First}, nil)
-		}
-		if plan.kind == "many" {
-			// how much of the excess does the garbage collector give back
-			runtime.GC()
-			time.Sleep(20 * time.Millisecond)
-			runtime.GC()
-			time.Sleep(20 * time.Millisecond)
-			_, afterGC, _ := c15Fds(s.srcBase, s.dstBase)
-			files := 0
-			for _, f := range s.subs {
-				if !f.IsDir {
-					files++
-				}
+	_, beforeClose := r.fds()
+	r.wclose()
+	if plan.kind == "many" {
+		// how much of the excess does the garbage collector give back
+		_, afterClose, _ := c15Fds(s.srcBase, s.dstBase)
+		runtime.GC()
+		time.Sleep(20 * time.Millisecond)
+		runtime.GC()
+		time.Sleep(20 * time.Millisecond)
+		_, afterGC, _ := c15Fds(s.srcBase, s.dstBase)
+		files := 0
+		for _, f := range s.subs {
+			if !f.IsDir {
+				files++
 			}
-			stats[fmt.Sprintf("many%d_files", len(s.subs))] = files
-			stats[fmt.Sprintf("many%d_wfds_peak", len(s.subs))] = peakW
-			stats[fmt.Sprintf("many%d_wfds_before_close", len(s.subs))] = beforeClose
-			stats[fmt.Sprintf("many%d_wfds_after_close", len(s.subs))] = wf
-			stats[fmt.Sprintf("many%d_wfds_after_close_and_gc", len(s.subs))] = afterGC
-			stats[fmt.Sprintf("many%d_rfds_peak", len(s.subs))] = peakR
-			stats[fmt.Sprintf("many%d_scan_dir_fds", len(s.subs))] = s.scanDirFds
 		}
-	}
-	if peakW > stats["wfds_peak"] {
-		stats["wfds_peak"] = peakW
-	}
-	if peakR > stats["rfds_peak"] {
-		stats["rfds_peak"] = peakR
+		pre := fmt.Sprintf("many%d_", len(s.subs))
+		stats[pre+"files"] = files
+		stats[pre+"wfds_peak"] = r.peakW
+		stats[pre+"wfds_before_close"] = beforeClose
+		stats[pre+"wfds_after_close"] = afterClose
+		stats[pre+"wfds_after_close_and_gc"] = afterGC
+		stats[pre+"rfds_peak"] = r.peakR
+		stats[pre+"scan_dir_fds"] = s.scanDirFds
 	}
 	stats["bytes"] += len(s.produced)
 	return nil
 }
 
-// random tree: depth <= maxDepth, fan-out <= maxFan, at most maxEntries entries
-func c15RandomTree(rng *rand.Rand, maxDepth, maxFan, maxEntries int, size func() int) *c15Tree {
+// c15Replay re-executes the calls of one recorded run (the events of a replay file): the same
+// tree (names, kinds, sizes, entry order), the same Read sizes, writeAll segments and resizes in
+// the same order, and records what the code does now.
+func c15Replay(d *vCtx) error {
+	evs, err := vReadNDJSON(d.pStr("run", d.path("run.ndjson")))
+	if err != nil {
+		return err
+	}
+	rng := d.rng(17)
+	tree := &c15Tree{Top: "replay"}
+	for _, ev := range evs {
+		switch ev["e"] {
+		case "reset":
+			if t, ok := ev["top"].(string); ok && t != "" {
+				tree.Top = t
+			}
+		case "entry":
+			nd := c15Node{Dir: ev["dir"].(bool), Parent: c15Int(ev["parent"]) - 1}
+			nd.Name, _ = ev["name"].(string)
+			if nd.Name == "" {
+				nd.Name = fmt.Sprintf("e%d", len(tree.Nodes))
+			}
+			if !nd.Dir {
+				if c, ok := ev["content"]; ok {
+					nd.Content = vBytes(c)
+				} else {
+					nd.Content = c15Content(rng, c15Int(ev["size"]))
+				}
+			}
+			tree.Nodes = append(tree.Nodes, nd)
+		}
+	}
+	if len(tree.Nodes) == 0 {
+		return fmt.Errorf("no entry events in the run")
+	}
+	root, err := os.MkdirTemp("/dev/shm", "c15rp-")
+	if err != nil {
+		return err
+	}
+	defer os.RemoveAll(root)
+	tr, err := vNewTrace(d.path("trace-00.ndjson"))
+	if err != nil {
+		return err
+	}
+	order := make([]int, len(tree.Nodes))
+	for i := range order {
+		order[i] = i
+	}
+	if d.pBool("gcoff", false) {
+		defer debug.SetGCPercent(debug.SetGCPercent(-1))
+	}
+	s, err := c15Open(filepath.Join(root, "run"), tree, order)
+	if err != nil {
+		return err
+	}
+	defer s.cleanup()
+	stats := map[string]int{}
+	r := &c15Rec{tr: tr, s: s, stats: stats}
+	r.begin(1, "replay", true)
+	rclosed, wclosed := false, false
+	for _, ev := range evs {
+		switch ev["e"] {
+		case "resize":
+			if err := r.resize(c15Int(ev["ent"])-1, int64(c15Int(ev["len"]))); err != nil {
+				return err
+			}
+		case "rd":
+			if r.rstate == "run" {
+				r.read(c15Int(ev["n"]))
+			}
+		case "rclose":
+			if r.rstate != "run" && r.rstate != "hang" && !rclosed {
+				r.rclose()
+				rclosed = true
+			}
+		case "wa":
+			n := c15Int(ev["len"])
+			if avail := len(s.produced) - s.wpos; n > avail {
+				n = avail
+			}
+			if n > 0 && r.werr == nil && !wclosed {
+				r.write(n)
+			}
+		case "wclose":
+			if r.werr == nil && !wclosed && r.rstate != "run" && s.wpos == len(s.produced) {
+				r.wclose()
+				wclosed = true
+			}
+		}
+	}
+	for k, v := range stats {
+		d.set(k, v)
+	}
+	d.set("wfds_peak", r.peakW)
+	d.set("rfds_peak", r.peakR)
+	d.set("events", tr.Len())
+	return tr.Close()
+}
+
+// random tree: depth <= maxDepth, fan-out <= maxFan, at most maxEntries entries; bushy = wide and
+// deep (every second entry a directory, the root full), else sparse
+func c15RandomTree(rng *rand.Rand, maxDepth, maxFan, maxEntries int, size func() int, bushy bool) *c15Tree {
 	t := &c15Tree{Top: c15Name(rng, rng.Intn(100))}
 	var grow func(parent, depth int)
 	grow = func(parent, depth int) {
 		fan := rng.Intn(maxFan + 1)
-		if parent < 0 && fan == 0 {
-			fan = 1
+		if parent < 0 && (fan == 0 || bushy) {
+			fan = maxFan
 		}
 		for i := 0; i < fan && len(t.Nodes) < maxEntries; i++ {
 			idx := len(t.Nodes)
-			if depth < maxDepth && rng.Intn(3) == 0 {
+			if depth < maxDepth && ((bushy && rng.Intn(2) == 0) || (!bushy && rng.Intn(3) == 0)) {
 				t.Nodes = append(t.Nodes, c15Node{Dir: true, Name: c15Name(rng, idx), Parent: parent})
 				grow(idx, depth+1)
 			} else {
@@ -685,12 +842,30 @@ func c15ManyTree(rng *rand.Rand, n int) *c15Tree {
 	return t
 }
 
+// c15TV splits the work over child processes (descriptor counts are per process); every child
+// records its share of the runs into its own trace files.
 func c15TV(d *vCtx) error {
-	shards := d.pInt("shards", 16)
-	nSmall := d.pInt("small", 1200)
-	nLarge := d.pInt("large", 10)
-	nShrink := d.pInt("shrink", 300)
-	many := []int{50, 100, 300}
+	return vShards(d, d.pInt("procs", 8), func(i, n int) error { return c15TVShard(d, i, n) })
+}
+
+func c15TVShard(d *vCtx, shard, nshards int) error {
+	shards := d.pInt("shards", 2)
+	share := func(total int) int {
+		k := total / nshards
+		if shard < total%nshards {
+			k++
+		}
+		return k
+	}
+	nSmall := share(d.pInt("small", 1200))
+	nLarge := share(d.pInt("large", 10))
+	nShrink := share(d.pInt("shrink", 300))
+	var many []int
+	for k, m := range []int{50, 100, 300} {
+		if k%nshards == shard {
+			many = append(many, m)
+		}
+	}
 	root, err := os.MkdirTemp("/dev/shm", "c15tv-")
 	if err != nil {
 		root, err = os.MkdirTemp("", "c15tv-")
@@ -707,7 +882,8 @@ func c15TV(d *vCtx) error {
 		}
 		traces[i] = t
 	}
-	rng := d.rng(15)
+	rng := d.rng(15 + 1000*int64(shard))
+	defer debug.SetGCPercent(debug.SetGCPercent(800)) // the zlib writers of encodeString are the only garbage
 	stats := map[string]int{}
 	run := 0
 	next := func() (*vTrace, string) {
@@ -726,11 +902,16 @@ func c15TV(d *vCtx) error {
 	}
 	// 1. small trees, reads and cuts aimed at the boundaries of the real headers
 	for i := 0; i < nSmall; i++ {
-		tree := c15RandomTree(rng, 3, 3, 1+rng.Intn(6), smallSize)
-		plan := c15Plan{kind: "small", pipelined: i%2 == 0, maxRead: []int{1, 2, 3, 7, 150, 400}[rng.Intn(6)],
-			maxWrite: []int{1, 2, 3, 7, 150, 400, 2000}[rng.Intn(7)], bias: true}
-		if plan.maxRead < 7 && plan.maxWrite < 7 && len(tree.Nodes) > 3 {
-			plan.maxRead = 150
+		tree := c15RandomTree(rng, 3, 3, 1+rng.Intn(6), smallSize, false)
+		plan := c15Plan{kind: "small", pipelined: i%2 == 0, maxRead: []int{1, 3, 7, 60, 150, 150, 400, 400}[rng.Intn(8)],
+			maxWrite: []int{1, 3, 7, 60, 150, 150, 400, 2000}[rng.Intn(8)], bias: true}
+		if len(tree.Nodes) > 2 { // keep the number of recorded calls bounded
+			if plan.maxRead < 60 {
+				plan.maxRead = 60
+			}
+			if plan.maxWrite < 60 {
+				plan.maxWrite = 150
+			}
 		}
 		tr, base := next()
 		if err := c15Record(tr, run, base, tree, plan, rng, stats); err != nil {
@@ -753,9 +934,9 @@ func c15TV(d *vCtx) error {
 		}
 	}
 	for i := 0; i < nLarge; i++ {
-		tree := c15RandomTree(rng, 5, 8, 60+rng.Intn(340), bigSize)
-		plan := c15Plan{kind: "large", pipelined: i%2 == 0, maxRead: []int{700, 4096, 32 * 1024, 100000}[rng.Intn(4)],
-			maxWrite: []int{700, 4096, 32 * 1024, 100000}[rng.Intn(4)], bias: true}
+		tree := c15RandomTree(rng, 5, 8, 60+rng.Intn(340), bigSize, true)
+		plan := c15Plan{kind: "large", pipelined: i%2 == 0, maxRead: []int{4096, 32 * 1024, 32 * 1024, 100000}[rng.Intn(4)],
+			maxWrite: []int{4096, 32 * 1024, 100000}[rng.Intn(3)], bias: true}
 		tr, base := next()
 		if err := c15Record(tr, run, base, tree, plan, rng, stats); err != nil {
 			return fmt.Errorf("large run %d: %v", run, err)
@@ -782,7 +963,7 @@ func c15TV(d *vCtx) error {
 				return 40000 + rng.Intn(40000)
 			}
 			return rng.Intn(9)
-		})
+		}, false)
 		var files []int
 		for k, nd := range tree.Nodes {
 			if !nd.Dir {
@@ -852,7 +1033,6 @@ func c15TV(d *vCtx) error {
 	}
 	d.set("runs", run)
 	d.set("events", events)
-	d.set("shards", shards)
 	return nil
 }
 
@@ -904,6 +1084,10 @@ func (p *c15Phi) at(pos int) int {
 }
 
 func c15MBT(d *vCtx) error {
+	return vShards(d, d.pInt("procs", 8), func(i, n int) error { return c15MBTShard(d, i, n) })
+}
+
+func c15MBTShard(d *vCtx, shard, nshards int) error {
 	cases, err := vReadNDJSON(d.pStr("cases", d.path("cases.ndjson")))
 	if err != nil {
 		return err
@@ -917,10 +1101,14 @@ func c15MBT(d *vCtx) error {
 	}
 	defer os.RemoveAll(root)
 	rng := d.rng(16)
+	defer debug.SetGCPercent(debug.SetGCPercent(800))
 	var mism []c15Mism
 	replayed, steps := 0, 0
 	fdExcessCases, fdExcessMax, fdExcessCase := 0, 0, -1
 	for ci, c := range cases {
+		if ci%nshards != shard {
+			continue
+		}
 		ents, _ := c["entries"].([]any)
 		tree := &c15Tree{Top: c15Name(rng, ci%50)}
 		phi := &c15Phi{}
@@ -960,9 +1148,12 @@ func c15MBT(d *vCtx) error {
 			}
 			mr, mw := 0, 0 // model positions of the producer and the consumer
 			segEnd := 0
-			var calls []c15Call
-			var werr error
-			ci2 := 0
+			var waDone chan error
+			defer func() {
+				if waDone != nil { // a writeAll is still parked at the gate: let it go
+					close(s.lw.gate)
+				}
+			}()
 			sts, _ := c["steps"].([]any)
 			for si, sv := range sts {
 				st := sv.(map[string]any)
@@ -1023,17 +1214,29 @@ func c15MBT(d *vCtx) error {
 						bad(si, "harness", phi.at(mw), s.wpos, "position bookkeeping")
 						return
 					}
-					calls, werr = s.writeSeg(rn)
-					ci2 = 0
+					data := append([]byte(nil), s.produced[s.wpos:s.wpos+rn]...)
+					s.wpos += rn
+					s.lw.calls, s.lw.zero = nil, 0
+					s.lw.gate, s.lw.done = make(chan bool), make(chan c15Call, 1)
+					waDone = make(chan error, 1)
+					go func(lw *c15LogWriter, ch chan error) { ch <- writeAll(lw, data) }(s.lw, waDone)
 				case "wr":
 					wantLen := phi.at(segEnd) - phi.at(mw)
 					wantC := phi.at(mw+c15Int(st["c"])) - phi.at(mw)
-					if ci2 >= len(calls) {
-						bad(si, "wr", map[string]any{"len": wantLen, "c": wantC}, "no such call", "writeAll made fewer Write calls than the model")
+					var cl c15Call
+					select {
+					case s.lw.gate <- true:
+						select {
+						case cl = <-s.lw.done:
+						case <-time.After(30 * time.Second):
+							bad(si, "wr", map[string]any{"len": wantLen, "c": wantC}, "Write did not return within 30s", "hang")
+							return
+						}
+					case err := <-waDone:
+						waDone = nil
+						bad(si, "wr", map[string]any{"len": wantLen, "c": wantC}, fmt.Sprint("writeAll returned: ", err), "writeAll made fewer Write calls than the model")
 						return
 					}
-					cl := calls[ci2]
-					ci2++
 					res := "ok"
 					if cl.Err != "" {
 						res = "err"
@@ -1047,9 +1250,18 @@ func c15MBT(d *vCtx) error {
 					if !checkFds(cl.RFds, cl.WFds) {
 						return
 					}
-					if mw == segEnd && (ci2 != len(calls) || werr != nil) {
-						bad(si, "wr", "segment consumed", map[string]any{"calls": len(calls), "err": fmt.Sprint(werr)}, "writeAll made more Write calls than the model / failed")
-						return
+					if mw == segEnd || res == "err" {
+						select {
+						case err := <-waDone:
+							waDone = nil
+							if (err != nil) != (res == "err") {
+								bad(si, "wr", "writeAll result", fmt.Sprint(err), "writeAll's result differs from the model")
+								return
+							}
+						case <-time.After(10 * time.Second):
+							bad(si, "wr", "segment consumed", "writeAll still calling Write", "writeAll made more Write calls than the model")
+							return
+						}
 					}
 				case "wclose":
 					_ = s.writer.Close()
@@ -1086,8 +1298,7 @@ func c15MBT(d *vCtx) error {
 	d.set("steps", steps)
 	d.set("mismatches", len(mism))
 	d.set("fd_writer_excess_cases", fdExcessCases)
-	d.set("fd_writer_excess_max", fdExcessMax)
-	d.set("fd_writer_excess_case", fdExcessCase)
+	d.set("fd_writer_excess", map[string]any{"max": fdExcessMax, "case": fdExcessCase})
 	if len(mism) > 200 {
 		mism = mism[:200]
 	}
@@ -1096,5 +1307,28 @@ func c15MBT(d *vCtx) error {
 
 // c15Probe: throw-away measurements (not part of the check).
 func c15Probe(d *vCtx) error {
+	root, _ := os.MkdirTemp("/dev/shm", "c15pr-")
+	defer os.RemoveAll(root)
+	rng := d.rng(1)
+	t0 := time.Now()
+	for i := 0; i < 20000; i++ {
+		c15Fds(root+"/src", root+"/dst")
+	}
+	d.set("fds_us", int(time.Since(t0).Microseconds()/20000))
+	t0 = time.Now()
+	for i := 0; i < 2000; i++ {
+		tree := c15RandomTree(rng, 2, 2, 3, func() int { return 2 }, false)
+		s, err := c15Open(filepath.Join(root, fmt.Sprintf("c%d", i)), tree, nil)
+		if err != nil {
+			return err
+		}
+		s.cleanup()
+	}
+	d.set("open_cleanup_us", int(time.Since(t0).Microseconds()/2000))
+	t0 = time.Now()
+	for i := 0; i < 2000; i++ {
+		encodeString("{\"path_id\":0,\"path_name\":[\"abc\",\"def\"],\"is_dir\":false,\"archive\":false,\"size\":3,\"perm\":420}")
+	}
+	d.set("encode_us", int(time.Since(t0).Microseconds()/2000))
 	return nil
 }
